@@ -84,7 +84,7 @@ def expected_channels(mode, keys):
     return tr, ch
 
 
-def make_export(qs, mode, anacrusis="shift", min_ppq=0, pickup=False, pin_second=False, grace=False):
+def make_export(qs, mode, anacrusis="shift", min_ppq=0, pickup=False, pin_second=False, grace=False, q2=None):
     """parts with divisions qs (one per part), each with one note in voice 1 and one in symbolic voice."""
     n_parts = len(qs)
     names = []
@@ -106,6 +106,8 @@ def make_export(qs, mode, anacrusis="shift", min_ppq=0, pickup=False, pin_second
         ppq = 1
         for q in qs:
             ppq = lcm(ppq, q)
+        if q2:
+            ppq = lcm(ppq, q2)  # part 0 changes its divisions to q2 at the second barline
         while ppq < min_ppq:
             ppq *= 2
         for i, q in enumerate(qs):
@@ -122,10 +124,13 @@ def make_export(qs, mode, anacrusis="shift", min_ppq=0, pickup=False, pin_second
                 require(dua == 1)
                 if pin_second:
                     require(ona == 0)  # quick tier: only the second note of the second part moves
+            chg = q2 if (q2 and i == 0) else None
             for (on, du) in ((ona, dua), (onb, dub)):
                 require(0 <= on)
                 require(1 <= du)
-                require(on + du <= first_len + bar)
+                require(on + du <= first_len + (4 * chg if chg else bar))
+            if chg:
+                part.set_quarter_duration(first_len, chg)
             if not pickup:
                 # without measures the quarter map starts at the first time point: pin it to 0 (see KF-C02)
                 require(ona == 0 or onb == 0)
@@ -140,10 +145,17 @@ def make_export(qs, mode, anacrusis="shift", min_ppq=0, pickup=False, pin_second
                 part.add(S.GraceNote("acciaccatura", steps[2], 4, id="g0", voice=1), ona, ona)
             parts.append(part)
             shift = first_len if pickup else 0  # quarter_map is 0 at the first full measure
+
+            def pos(t, q=q, chg=chg, c=first_len, shift=shift):
+                """quarter position of timeline time t as (numerator, denominator)"""
+                if chg and t > c:
+                    return ((c - shift) * chg + (t - c) * q, q * chg)
+                return (t - shift, q)
+
             for (nid, on, du, pitch, voice) in (("a", ona, dua, 12 * (5 + i) + 0, 1), ("b", onb, dub, 12 * (5 + i) + 2, v)):
-                exp.append(dict(part=i, voice=voice, pitch=pitch, on=(on - shift, q), off=(on + du - shift, q)))
+                exp.append(dict(part=i, voice=voice, pitch=pitch, on=pos(on), off=pos(on + du)))
             if i == 0 and grace:
-                exp.append(dict(part=0, voice=1, pitch=12 * 5 + 4, on=(ona - shift, q), off=(ona - shift, q)))
+                exp.append(dict(part=0, voice=1, pitch=12 * 5 + 4, on=pos(ona), off=pos(ona)))
         arg = parts[0] if n_parts == 1 else S.Score(parts)
         mf = must_not_raise(EM.save_score_midi, arg, None, part_voice_assign_mode=mode, velocity=vel,
                             anacrusis_behavior=anacrusis, minimum_ppq=min_ppq, _what="save_score_midi")
@@ -175,7 +187,7 @@ def make_export(qs, mode, anacrusis="shift", min_ppq=0, pickup=False, pin_second
             offs = [(tj, t2, m2) for (tj, t2, m2) in evs if (m2.type == "note_off" or (m2.type == "note_on" and m2.velocity == 0))
                     and m2.note == e["pitch"]]
             check(len(offs) == 1, "exactly one note_off per sounding note", e["pitch"], len(offs))
-            check((offs[0][1] - zero_shift_num) * q == off_tick_num, "offset tick is not ppq * quarter position", e, offs[0][1])
+            check((offs[0][1] - zero_shift_num) * e["off"][1] == off_tick_num, "offset tick is not ppq * quarter position", e, offs[0][1])
             check(offs[0][0] == ti and offs[0][2].channel == m.channel, "note_off in another track/channel")
             i_on = [k for k, ev in enumerate(evs) if ev[2] is m][0]
             i_off = [k for k, ev in enumerate(evs) if ev[2] is offs[0][2]][0]
@@ -294,12 +306,14 @@ def make_trch(mode):
 
 def _exp_inst(tier):
     out = [{"qs": [2], "mode": 0, "grace": True}, {"qs": [3], "mode": 5, "min_ppq": 10, "grace": True}, {"qs": [2, 3], "mode": 2, "pin_second": True},
-           {"qs": [2], "mode": 4, "pickup": True, "anacrusis": "pad_bar"}, {"qs": [2], "mode": 0, "anacrusis": "time_sig_change"}]
+           {"qs": [2], "mode": 4, "pickup": True, "anacrusis": "pad_bar"}, {"qs": [2], "mode": 0, "anacrusis": "time_sig_change"},
+           {"qs": [2], "mode": 0, "q2": 3}]
     if tier != "quick":
         out += [{"qs": [2, 3], "mode": 0, "pin_second": True}, {"qs": [4, 6], "mode": 2, "pin_second": True}, {"qs": [2, 3], "mode": 0}, {"qs": [4, 6], "mode": 2}, {"qs": [2, 3], "mode": 3}, {"qs": [12, 8], "mode": 5}, {"qs": [1], "mode": 1},
                 {"qs": [2], "mode": 0, "pickup": True, "anacrusis": "pad_bar"}, {"qs": [2], "mode": 4, "pickup": True},
                 {"qs": [3], "mode": 3, "pickup": True, "anacrusis": "time_sig_change"},
-                {"qs": [4, 6], "mode": 4, "min_ppq": 100}]
+                {"qs": [4, 6], "mode": 4, "min_ppq": 100},
+                {"qs": [2], "mode": 4, "pickup": True, "q2": 4}, {"qs": [4], "mode": 3, "q2": 6, "min_ppq": 20}]
     return out
 
 
@@ -347,7 +361,7 @@ HARNESSES = [
                  "Part.quarter_map", "Part.notes_tied", "GenericNote.duration_tied", "Part.time_signature_map"],
       bounds="1-2 parts with listed divisions, two measures (optional one-quarter-short pickup), two notes per part "
              "with symbolic onset/duration (divs) and symbolic second voice 1..2, symbolic velocity; concrete mode / "
-             "anacrusis policy / minimum_ppq per instance",
+             "anacrusis policy / minimum_ppq / a divisions change of the first part at the second barline per instance",
       outside="file bytes; ties, grace notes, key/tempo marks (thorough adds some); load_score_midi"),
     H("import_roundtrip", make_import_roundtrip, lambda tier: [{"mode": m} for m in (0, 2, 5)], budget={"quick": 20, "thorough": 20}, core=False,
       vectors=[{"on_a": 0, "du_a": 8, "on_b": 4, "du_b": 4, "unison": True}, {"on_a": 4, "du_a": 4, "on_b": 0, "du_b": 8, "unison": True},
